@@ -60,10 +60,66 @@ pub fn d6() -> bool {
     r.is_err()
 }
 
+/// C12: an entry applied by a reconciliation message is announced once, as a RemoteInsert event
+/// carrying that entry, the providing peer, the delivered content status and the policy decision.
+pub fn c12() -> bool {
+    use crate::store::{DownloadPolicy, FilterKind};
+    use crate::sync::Event;
+    let mut store = Store::memory();
+    let ns = NamespaceSecret::from_bytes(&[3u8; 32]);
+    let author = Author::from_bytes(&[4u8; 32]);
+    let nsid = ns.id();
+    store.import_namespace(ns.clone().into()).unwrap();
+    store.set_download_policy(&nsid, DownloadPolicy::NothingExcept(vec![FilterKind::Prefix("dl".into())])).unwrap();
+    let mut replica = store.open_replica(&nsid).unwrap();
+    let (tx, rx) = async_channel::bounded(8);
+    replica.info.subscribe(tx);
+    let now = std::time::SystemTime::now().duration_since(std::time::UNIX_EPOCH).unwrap().as_micros() as u64;
+    let mk = |key: &[u8]| {
+        let id = RecordIdentifier::new(nsid, author.id(), key);
+        SignedEntry::from_entry(Entry::new(id, Record::new(Hash::new(key), key.len() as u64, now)), &ns, &author)
+    };
+    let (e1, e2) = (mk(b"dl/x"), mk(b"other"));
+    let range = Range::new(RecordIdentifier::default(), RecordIdentifier::default());
+    let msg = message(vec![MessagePart::RangeItem(RangeItem {
+        range,
+        values: vec![(e1.clone(), ContentStatus::Complete), (e2.clone(), ContentStatus::Incomplete)],
+        have_local: true,
+    })]);
+    let mut outcome = SyncOutcome::default();
+    let _ = block_on(replica.sync_process_message(msg, [9u8; 32], &mut outcome)).unwrap();
+    let mut bad = false;
+    let mut n = 0;
+    while let Ok(ev) = rx.try_recv() {
+        let (want_entry, want_status, want_dl) = if n == 0 { (&e1, ContentStatus::Complete, true) } else { (&e2, ContentStatus::Incomplete, false) };
+        match ev {
+            Event::RemoteInsert { namespace, entry, from, should_download, remote_content_status } => {
+                let ok = namespace == nsid && &entry == want_entry && from == [9u8; 32] && should_download == want_dl && remote_content_status == want_status;
+                if !ok {
+                    eprintln!("c12: event {n} has wrong fields");
+                    bad = true;
+                }
+            }
+            _ => {
+                eprintln!("c12: event {n} is not a RemoteInsert");
+                bad = true;
+            }
+        }
+        n += 1;
+    }
+    if n != 2 {
+        eprintln!("c12: expected 2 events, got {n}");
+        bad = true;
+    }
+    bad
+}
+
 pub fn run(id: &str) -> Option<bool> {
     Some(match id {
         "d3" => d3(),
         "d6" => d6(),
+        "c12" => c12(),
+        "c14" => crate::actor::verif_incrate::witness_c14(),
         _ => return None,
     })
 }
